@@ -202,7 +202,7 @@ def _indent_of(text, offset):
     return m.group(0)
 
 
-def normalise_fn(text, log=None, result_name="r_"):
+def normalise_fn(text, log=None, result_name="r_", signature_only=False):
     """Rules A1-A4, N1 on one fn item (attributes already dropped).
 
     A1  name the result:            `-> T`           => `-> (r_: T)`
@@ -246,6 +246,8 @@ def normalise_fn(text, log=None, result_name="r_"):
     bo = toks[body_open]
     prev_end = toks[body_open - 1].end
     edits.append((prev_end, bo.start, "\n" + ind))  # A3
+    if signature_only:
+        return _apply_edits(text, edits), 0
     # --- loops
     body_close = match_close(toks, body_open)
     k = 0  # loop ordinal
@@ -278,6 +280,45 @@ def normalise_fn(text, log=None, result_name="r_"):
             if t.text == "for":
                 if in_tok is None:
                     raise ExtractError("for without in")
+                # N2: top-level `if C { continue; }` statements of the body wrap the rest of the body
+                close = match_close(toks, j)
+                q = j + 1
+                n2 = 0
+                while q < close:
+                    x = toks[q]
+                    at_stmt_start = toks[q - 1].text in ("{", ";", "}")
+                    if x.kind == "ident" and x.text == "if" and at_stmt_start:
+                        dd = 0
+                        b = q + 1
+                        while not (toks[b].text == "{" and dd == 0):
+                            if toks[b].text in ("(", "["):
+                                dd += 1
+                            elif toks[b].text in (")", "]"):
+                                dd -= 1
+                            b += 1
+                        bc = match_close(toks, b)
+                        if bc == b + 3 and toks[b + 1].text == "continue" and toks[b + 2].text == ";" and toks[bc + 1].text != "else":
+                            cond = text[toks[q + 1].start:toks[b - 1].end]
+                            edits.append((toks[q].start, toks[bc].end, "if !(%s) {" % cond))
+                            n2 += 1
+                            if log is not None:
+                                log.append({"rule": "N2", "loop": k, "cond": cond})
+                            q = bc + 1
+                            continue
+                        # skip the whole if/else chain
+                        q = bc + 1
+                        while q < close and toks[q].text == "else":
+                            b2 = q + 1
+                            while toks[b2].text != "{":
+                                b2 += 1
+                            q = match_close(toks, b2) + 1
+                        continue
+                    if x.kind == "punct" and x.text in OPEN:
+                        q = match_close(toks, q) + 1
+                        continue
+                    q += 1
+                if n2:
+                    edits.append((toks[close].start, toks[close].start, "}" * n2 + "\n" + lind))
                 expr_start = toks[in_tok + 1].start
                 if toks[i + 1].kind == "punct" and toks[i + 1].text == "&":
                     pat = text[toks[i + 2].start:toks[in_tok - 1].end]
@@ -383,6 +424,31 @@ def denormalise_tokens(toks, result_name="r_"):
         out.append(x)
         i += 1
     return out
+
+
+def invert_n2(s, conds):
+    """s: list of token texts; conds: list of condition token-text lists (in order of application).
+    `if ! ( C ) { R }` directly followed by the loop's closing brace  =>  `if C { continue ; } R`."""
+    for cond in conds:
+        pat = ["if", "!", "("] + cond + [")", "{"]
+        n = len(pat)
+        hit = next((i for i in range(len(s) - n + 1) if s[i:i + n] == pat), None)
+        if hit is None:
+            raise ExtractError("N2 inverse: wrapper for %r not found" % " ".join(cond))
+        # matching close of the wrapper brace
+        d = 0
+        e = hit + n - 1
+        for e in range(hit + n - 1, len(s)):
+            if s[e] in ("(", "[", "{"):
+                d += 1
+            elif s[e] in (")", "]", "}"):
+                d -= 1
+                if d == 0:
+                    break
+        if s[e + 1] != "}":
+            raise ExtractError("N2 inverse: wrapper does not end the loop body")
+        s = s[:hit] + ["if"] + cond + ["{", "continue", ";", "}"] + s[hit + n:e] + s[e + 1:]
+    return s
 
 
 def token_texts(text):
